@@ -26,7 +26,7 @@ RULE = ("scenario = seeded world (draft, root schema with definitions, 0-3 remot
         "exception while >=1 extra resolution scope was pushed (measured by reach probe), AND a later operation, "
         "performed by the fresh-validator oracle, resolved >=1 reference; distinct = distinct scenario digests")
 
-REQUIRED_PROBES = ("fault:handler_fail_first", "op_ended_in_exception", "fault:collab_raise", "fault:net_short_body",
+REQUIRED_PROBES = ("fault:stack_exhausted", "fault:handler_fail_first", "op_ended_in_exception", "fault:collab_raise", "fault:net_short_body",
                    "fault:gc_inside_operation", "abandon_suspended")
 EXPECTED_PROBES = ("abandon_with_scopes_pushed", "abandon_with_2plus_scopes_pushed", "gc_finalised_iterator_and_popped",
                    "consumer_died_with_scopes_pushed")
@@ -37,7 +37,9 @@ RESOLVER_OPS = ["resolve", "resolving", "in_scope"]
 
 
 def generate(rng, tier="quick"):
-    world = W.gen_world(rng) if tier == "quick" else W.gen_world(rng, ndefs=rng.randint(1, 10), ninstances=rng.randint(2, 7))
+    deep = rng.random() < 0.08
+    world = W.gen_world(rng, deep_instance=deep) if tier == "quick" else \
+        W.gen_world(rng, ndefs=rng.randint(1, 10), ninstances=rng.randint(2, 7), deep_instance=deep)
     fault_rate = rng.choice([0.0, 0.0, 0.35, 0.6])
     from dsim.sim import gen_cfg
     cfg = gen_cfg(rng, world, fault_rate)
@@ -54,6 +56,10 @@ def generate(rng, tier="quick"):
         refs.append(u)
     refs += ["#", "#/definitions/n0", "d1.json#/definitions/n0", "sub/d1.json#/definitions/n0", "sub/d2.json"]
     ninst = len(world["instances"])
+    deep_idx = None
+    for j, inst in enumerate(world["instances"]):
+        if isinstance(inst, dict) and list(inst) == ["$deep"]:
+            deep_idx = j
     ops = []
     for _ in range(nops):
         kind = rng.choice(enabled)
@@ -62,7 +68,10 @@ def generate(rng, tier="quick"):
             pass
         elif kind in VALIDATION_OPS:
             op["inst"] = rng.randrange(ninst)
-            if gc_inside and rng.random() < 0.3:
+            if deep_idx is not None and rng.random() < 0.35:
+                op["inst"] = deep_idx
+            is_deep = isinstance(world["instances"][op["inst"]], dict) and list(world["instances"][op["inst"]]) == ["$deep"]
+            if gc_inside and rng.random() < 0.3 and not is_deep:
                 op["gc_at"] = rng.choice([3, 10, 25, 60, 120, 250, 500])
             if kind in ("take_close", "take_drop", "take_cycle", "consumer_raises"):
                 op["k"] = rng.choice([0, 1, 1, 1, 2, 2, 3, 5])
@@ -82,7 +91,16 @@ def generate(rng, tier="quick"):
             "requests": rng.random() < 0.4}
 
 
+def _stack_exhausted(o):
+    e = o.get("exc") or {}
+    return e.get("cls") == "RecursionError" or "maximum recursion depth" in (e.get("msg") or "")
+
+
 def same(a, b):
+    if _stack_exhausted(a) or _stack_exhausted(b):
+        # where exactly the stack runs out depends on how warm the caches are (a cache hit needs fewer frames):
+        # "died of stack exhaustion" is the whole outcome, on both sides
+        return _stack_exhausted(a) and _stack_exhausted(b)
     if a.get("k") != b.get("k"):
         return False
     if a["k"] == "errors" and a.get("complete") and b.get("complete"):
@@ -150,6 +168,8 @@ def execute(scn):
             nontrivial = True
         fired_now = any(actor.probes.get(k, 0) > pr0.get(k, 0) for k in
                         ("abandon_with_scopes_pushed", "consumer_died_with_scopes_pushed"))
+        if _stack_exhausted(out):
+            actor.probe("fault:stack_exhausted")
         if out.get("k") == "raised" or out.get("exc"):
             actor.probe("op_ended_in_exception")
             if resolved_refs > 0:
@@ -171,7 +191,19 @@ def execute(scn):
 
 
 def run(scn, fork_call):
-    return fork_call(execute, scn)
+    from dsim.runner import HarnessError
+    try:
+        return fork_call(execute, scn)
+    except HarnessError as e:
+        deep = any(isinstance(i, dict) and list(i) == ["$deep"] for i in scn["world"]["instances"])
+        if deep and "status 6" in str(e):
+            # "Fatal Python error: Cannot recover from stack overflow": the interpreter itself gave up while a
+            # RecursionError was being handled (it aborts when handlers recurse 50 frames further).  That is the
+            # stack-exhaustion fault killing the whole process, not an observation about the property and not a
+            # fault of the harness: the run is inconclusive and counted as such.
+            return {"violations": [], "nontrivial": False, "stats": {"interpreter_aborted_on_stack_overflow": 1},
+                    "steps": 0, "log_digest": digest(["aborted"]), "states": [], "sched": None}
+        raise
 
 
 def violation_class(v):
